@@ -22,3 +22,117 @@ package sourcewalk
 //@   loop 1 invariant forall i int :: 0 <= i && i < $iter ==> out[len(virtualPrepend)+i].schema == properties[i]
 //@   loop 1 invariant forall i int :: 0 <= i && i < len(properties) ==> properties[i] == old(properties[i])
 //@   loop 1 invariant forall i int :: 0 <= i && i < len(virtualPrepend) ==> virtualPrepend[i] == old(virtualPrepend[i])
+
+// ---- entity expansion (C17) --------------------------------------------------------------------------
+// What each step of the expansion hands to the visitor, stated where it is handed over. camel,
+// lowerCamel and screamingSnake name strcase's functions (spec/strcase.spec). arg0… are the explicit
+// arguments of the call the assertion is attached to.
+//@ spec func comp(ent *entityNode, suffix string) string = camel(ent.Schema.Name) + camel(suffix)
+
+//@ func newVirtualObjectNode
+//@   requires len(virtual) + len(properties) < 2147483647
+//@   ensures result1 == nil && result0 != nil && result0.Name == name
+//@ func newObjectSchemaNode
+//@   requires schema != nil && len(virtual) + len(schema.Properties) < 2147483647
+//@   ensures result1 == nil && result0 != nil && result0.Name == schema.Name && result0.Entity == schema.Entity && result0.Description == schema.Description
+
+// Keys: an object <Name>Keys carrying the entity annotation, built from the key definitions in
+// declaration order.
+//@ func (*entityNode).acceptKeys
+//@   requires len(ent.Schema.Keys) < 2147483646
+//@   requires ent != nil && ent.Schema != nil && visitor != nil && (forall i int {ent.Schema.Keys[i]} :: 0 <= i && i < len(ent.Schema.Keys) ==> ent.Schema.Keys[i] != nil)
+//@   assert at newVirtualObjectNode#0 order: arg2 == comp(ent, "Keys") && len(arg3) == len(ent.Schema.Keys) && (forall i int {arg3[i]} :: 0 <= i && i < len(arg3) ==> arg3[i] == ent.Schema.Keys[i].Def)
+//@   assert at VisitObject#0 annotated: arg0 != nil && arg0.Name == comp(ent, "Keys") && arg0.Entity != nil && arg0.Entity.Entity == ent.name && arg0.Entity.Part == schema_j5pb.EntityPart_KEYS
+//@   loop 0 invariant len(keyProps) == $iter && (forall i int {keyProps[i]} :: 0 <= i && i < $iter ==> keyProps[i] == ent.Schema.Keys[i].Def)
+//@   loop 0 invariant forall i int {ent.Schema.Keys[i]} :: 0 <= i && i < len(ent.Schema.Keys) ==> ent.Schema.Keys[i] != nil
+
+// Data: an object <Name>Data with the declared data properties and the entity annotation.
+//@ func (*entityNode).acceptData
+//@   requires ent != nil && ent.Schema != nil && visitor != nil && len(ent.Schema.Data) < 2147483646
+//@   assert at newVirtualObjectNode#0 props: arg2 == comp(ent, "Data") && arg3 == ent.Schema.Data
+//@   assert at VisitObject#0 annotated: arg0 != nil && arg0.Name == comp(ent, "Data") && arg0.Entity != nil && arg0.Entity.Entity == ent.name && arg0.Entity.Part == schema_j5pb.EntityPart_DATA
+
+// Status: an enum <Name>Status with prefix <NAME>_STATUS_ and the declared statuses in order
+// (numbering after UNSPECIFIED is the enum conversion's contract, C02).
+//@ func (*entityNode).acceptStatus
+//@   requires ent != nil && ent.Schema != nil && visitor != nil
+//@   assert at newEnumNode#0 status: arg2 != nil && arg2.Name == comp(ent, "Status") && arg2.Options == ent.Schema.Status && arg2.Prefix == screamingSnake(ent.Schema.Name) + "_STATUS_"
+
+// State: metadata, flattened keys, data and status at proto fields 1..4, all required, with the
+// entity annotation.
+//@ func (*entityNode).acceptState
+//@   requires ent != nil && ent.Schema != nil && visitor != nil
+//@   assert at newObjectSchemaNode#0 shape: arg2 != nil && arg2.Name == camel(ent.Schema.Name + "State") && arg2.Entity != nil && arg2.Entity.Entity == ent.name && arg2.Entity.Part == schema_j5pb.EntityPart_STATE && len(arg2.Properties) == 4
+//@   assert at newObjectSchemaNode#0 names: arg2.Properties[0].Name == "metadata" && arg2.Properties[1].Name == "keys" && arg2.Properties[2].Name == "data" && arg2.Properties[3].Name == "status"
+//@   assert at newObjectSchemaNode#0 required: arg2.Properties[0].Required && arg2.Properties[1].Required && arg2.Properties[2].Required && arg2.Properties[3].Required
+//@   assert at newObjectSchemaNode#0 numbers: len(arg2.Properties[0].ProtoField) == 1 && arg2.Properties[0].ProtoField[0] == 1 && len(arg2.Properties[1].ProtoField) == 1 && arg2.Properties[1].ProtoField[0] == 2
+//@   |   && len(arg2.Properties[2].ProtoField) == 1 && arg2.Properties[2].ProtoField[0] == 3 && len(arg2.Properties[3].ProtoField) == 1 && arg2.Properties[3].ProtoField[0] == 4
+//@   assert at newObjectSchemaNode#0 keysref: typeis(arg2.Properties[1].Schema.Type, *schema_j5pb.Field_Object) && as(*schema_j5pb.Field_Object, arg2.Properties[1].Schema.Type).Object.Flatten
+//@   |   && typeis(as(*schema_j5pb.Field_Object, arg2.Properties[1].Schema.Type).Object.Schema, *schema_j5pb.ObjectField_Ref)
+//@   |   && as(*schema_j5pb.ObjectField_Ref, as(*schema_j5pb.Field_Object, arg2.Properties[1].Schema.Type).Object.Schema).Ref.Schema == comp(ent, "Keys")
+
+// Event type: a oneof <Name>EventType with exactly one option per declared event, numbered in
+// declaration order, each pointing at the nested message of that name.
+//@ func (*entityNode).acceptEventOneof
+//@   requires ent != nil && ent.Schema != nil && visitor != nil && len(ent.Schema.Events) < 2147483647
+//@   requires forall i int {ent.Schema.Events[i]} :: 0 <= i && i < len(ent.Schema.Events) ==> ent.Schema.Events[i] != nil && ent.Schema.Events[i].Def != nil
+//@   assert at newOneofNode#0 one: arg2 != nil && arg2.Def != nil && arg2.Def.Name == camel(ent.Schema.Name + "EventType") && len(arg2.Def.Properties) == len(ent.Schema.Events) && len(arg2.Schemas) == len(ent.Schema.Events)
+//@   assert at newOneofNode#0 each: forall i int {arg2.Def.Properties[i]} :: 0 <= i && i < len(ent.Schema.Events) ==> arg2.Def.Properties[i] != nil
+//@   |   && arg2.Def.Properties[i].Name == lowerCamel(ent.Schema.Events[i].Def.Name) && len(arg2.Def.Properties[i].ProtoField) == 1 && arg2.Def.Properties[i].ProtoField[0] == i + 1
+//@   loop 0 invariant eventOneof != nil && eventOneof.Name == camel(ent.Schema.Name + "EventType") && len(eventOneof.Properties) == $iter && len(eventObjects) == $iter
+//@   loop 0 invariant forall i int {eventOneof.Properties[i]} :: 0 <= i && i < $iter ==> eventOneof.Properties[i] != nil
+//@   |   && eventOneof.Properties[i].Name == lowerCamel(ent.Schema.Events[i].Def.Name) && len(eventOneof.Properties[i].ProtoField) == 1 && eventOneof.Properties[i].ProtoField[0] == i + 1
+//@   loop 0 invariant forall i int {ent.Schema.Events[i]} :: 0 <= i && i < len(ent.Schema.Events) ==> ent.Schema.Events[i] != nil && ent.Schema.Events[i].Def != nil && ent.Schema.Events[i].Def.Name == old(ent.Schema.Events[i].Def.Name)
+//@   loop 0 invariant ent.Schema == old(ent.Schema) && ent.Schema.Events == old(ent.Schema.Events) && ent.Schema.Name == old(ent.Schema.Name)
+
+// Event: metadata, flattened keys and the event oneof at proto fields 1..3, all required, with the
+// entity annotation; the oneof is referred to by the name the expansion gives it.
+//@ func (*entityNode).acceptEvent
+//@   requires ent != nil && ent.Schema != nil && visitor != nil
+//@   assert at newObjectSchemaNode#0 shape: arg2 != nil && arg2.Name == camel(ent.Schema.Name + "Event") && arg2.Entity != nil && arg2.Entity.Entity == ent.name && arg2.Entity.Part == schema_j5pb.EntityPart_EVENT && len(arg2.Properties) == 3
+//@   assert at newObjectSchemaNode#0 names: arg2.Properties[0].Name == "metadata" && arg2.Properties[1].Name == "keys" && arg2.Properties[2].Name == "event"
+//@   |   && arg2.Properties[0].Required && arg2.Properties[1].Required && arg2.Properties[2].Required
+//@   assert at newObjectSchemaNode#0 numbers: len(arg2.Properties[0].ProtoField) == 1 && arg2.Properties[0].ProtoField[0] == 1 && len(arg2.Properties[1].ProtoField) == 1 && arg2.Properties[1].ProtoField[0] == 2 && len(arg2.Properties[2].ProtoField) == 1 && arg2.Properties[2].ProtoField[0] == 3
+//@   assert at newObjectSchemaNode#0 oneofref: typeis(arg2.Properties[2].Schema.Type, *schema_j5pb.Field_Oneof) && typeis(as(*schema_j5pb.Field_Oneof, arg2.Properties[2].Schema.Type).Oneof.Schema, *schema_j5pb.OneofField_Ref)
+//@   |   && as(*schema_j5pb.OneofField_Ref, as(*schema_j5pb.Field_Oneof, arg2.Properties[2].Schema.Type).Oneof.Schema).Ref.Schema == comp(ent, "EventType")
+
+// Query service: <Name>Query with Get, List and Events (all GET) for this entity; Get/Events
+// and List have as many path parameters as key request properties.
+//@ func (*entityNode).acceptQuery
+//@   requires ent != nil && ent.Schema != nil && visitor != nil
+//@   requires forall i int {ent.Schema.Keys[i]} :: 0 <= i && i < len(ent.Schema.Keys) ==> ent.Schema.Keys[i] != nil && ent.Schema.Keys[i].Def != nil && ent.Schema.Keys[i].Def.Schema != nil
+//@   assert at newServiceRef#0 service: arg1 != nil && *arg1.Name == camel(ent.name) + "Query" && len(arg1.Methods) == 3 && arg1.Methods[0] == getMethod && arg1.Methods[1] == listMethod && arg1.Methods[2] == eventsMethod
+//@   assert at newServiceRef#0 entity: arg1.Options != nil && typeis(arg1.Options.Type, *ext_j5pb.ServiceOptions_StateQuery_) && as(*ext_j5pb.ServiceOptions_StateQuery_, arg1.Options.Type).StateQuery.Entity == ent.name
+//@   assert at newServiceRef#0 methods: getMethod.Name == camel(ent.name) + "Get" && listMethod.Name == camel(ent.name) + "List" && eventsMethod.Name == camel(ent.name) + "Events"
+//@   |   && getMethod.HttpMethod == client_j5pb.HTTPMethod_GET && listMethod.HttpMethod == client_j5pb.HTTPMethod_GET && eventsMethod.HttpMethod == client_j5pb.HTTPMethod_GET
+// (the element-wise correspondence ":name" <-> request property over four appended slices gives
+// queries no installed solver decides in 120 s; the counts are what is checked)
+//@   loop 0 invariant len(httpPath) == len(getKeys) && len(listHttpPath) == len(listKeys)
+//@   loop 0 invariant forall i int {ent.Schema.Keys[i]} :: 0 <= i && i < len(ent.Schema.Keys) ==> ent.Schema.Keys[i] != nil && ent.Schema.Keys[i].Def != nil && ent.Schema.Keys[i].Def.Schema != nil
+//@   loop 0 invariant ent.Schema == old(ent.Schema) && ent.Schema.Keys == old(ent.Schema.Keys) && ent.name == old(ent.name)
+
+// Commands: one service per declared command service, each carrying the entity name.
+//@ spec func fullEnt(ent *entityNode) string = ent.packageName + "." + camel(ent.Schema.Name)
+//@ func (*entityNode).acceptCommands
+//@   requires ent != nil && ent.Schema != nil && visitor != nil
+//@   requires forall i int {ent.Schema.Commands[i]} :: 0 <= i && i < len(ent.Schema.Commands) ==> ent.Schema.Commands[i] != nil
+//@   assert at newServiceRef#0 entity: arg1 != nil && arg1.Options != nil && typeis(arg1.Options.Type, *ext_j5pb.ServiceOptions_StateCommand_) && as(*ext_j5pb.ServiceOptions_StateCommand_, arg1.Options.Type).StateCommand.Entity == ent.name
+//@   |   && hasSuffix(*arg1.Name, "Command") && arg1.Methods == ent.Schema.Commands[idx].Methods
+//@   assert at VisitServiceFile#0 all: arg0 != nil && len(arg0.services) == len(ent.Schema.Commands)
+//@   loop 0 invariant len(services) == $iter && ent.Schema == old(ent.Schema) && ent.Schema.Commands == old(ent.Schema.Commands) && ent.name == old(ent.name)
+//@   loop 0 invariant forall i int {ent.Schema.Commands[i]} :: 0 <= i && i < len(ent.Schema.Commands) ==> ent.Schema.Commands[i] != nil
+
+// Publish topic: one event topic <Name>Publish for this entity.
+//@ func (*entityNode).acceptPublishTopic
+//@   requires ent != nil && ent.Schema != nil && visitor != nil
+//@   assert at VisitTopicFile#0 publish: arg0 != nil && len(arg0.topics) == 1 && arg0.topics[0] != nil && arg0.topics[0].schema != nil && arg0.topics[0].schema.Name == camel(ent.Schema.Name) + "Publish"
+//@   |   && typeis(arg0.topics[0].schema.Type.Type, *sourcedef_j5pb.TopicType_Event_) && as(*sourcedef_j5pb.TopicType_Event_, arg0.topics[0].schema.Type.Type).Event.EntityName == fullEnt(ent)
+//@   |   && *as(*sourcedef_j5pb.TopicType_Event_, arg0.topics[0].schema.Type.Type).Event.Message.Name == camel(ent.Schema.Name) + "Event"
+
+// Summary topics: one upsert topic per declared summary, for this entity.
+//@ func (*entityNode).acceptSummaryTopics
+//@   requires ent != nil && ent.Schema != nil && visitor != nil
+//@   requires forall i int {ent.Schema.Summaries[i]} :: 0 <= i && i < len(ent.Schema.Summaries) ==> ent.Schema.Summaries[i] != nil
+//@   assert at VisitTopicFile#0 all: arg0 != nil && len(arg0.topics) == len(ent.Schema.Summaries)
+//@   loop 0 invariant len(topics) == $iter && ent.Schema == old(ent.Schema) && ent.Schema.Summaries == old(ent.Schema.Summaries)
+//@   loop 0 invariant forall i int {ent.Schema.Summaries[i]} :: 0 <= i && i < len(ent.Schema.Summaries) ==> ent.Schema.Summaries[i] != nil
